@@ -205,7 +205,102 @@ def x_extension(ctx, case):
     return True
 
 
-SUBCHECKS = {"expr": x_expr, "sequence": x_sequence, "exc_nontuple": x_exc_nontuple, "extension": x_extension}
+def x_fs_later(ctx, case):
+    """Filesystem matchers are predicates of the filesystem AS IT IS WHEN match() IS CALLED: a SamePath / FileContains
+    / DirContains / HasPermissions / PathExists matcher built earlier and kept (a module-level constant, a fixture
+    attribute) gives, after a symlink was retargeted, a file rewritten, the working directory changed, the verdict a
+    freshly built one gives - the documented predicate of the value and the world now."""
+    import os
+    import shutil
+    import tempfile
+    from testtools import matchers as M
+    root = os.path.realpath(tempfile.mkdtemp(prefix="tvm-c06-fs-"))
+    cwd0 = os.getcwd()
+    try:
+        j = lambda *a: os.path.join(root, *a)  # noqa: E731
+        for d in ("A", "B"):
+            os.mkdir(j(d))
+            with open(j(d, "rel.txt"), "w") as f:
+                f.write("in " + d)
+        with open(j("f1"), "w") as f:
+            f.write("one")
+        with open(j("f2"), "w") as f:
+            f.write("two")
+        os.symlink(j("f1"), j("link"))
+        os.chdir(j("A"))
+        built = []          # (spec, matcher)
+
+        def mk(spec):
+            k = spec[0]
+            if k == "SamePath":
+                return M.SamePath(spec[1] if spec[1] == "rel.txt" else j(spec[1]))
+            if k == "FileContains":
+                return M.FileContains(spec[1])
+            if k == "DirContains":
+                return M.DirContains(spec[1])
+            if k == "HasPermissions":
+                return M.HasPermissions(spec[1])
+            return M.PathExists()
+
+        def want(spec, value):
+            k = spec[0]
+            v = value if value == "rel.txt" else j(value)
+            if k == "SamePath":
+                mine = spec[1] if spec[1] == "rel.txt" else j(spec[1])
+                return os.path.realpath(os.path.abspath(mine)) == os.path.realpath(os.path.abspath(v))
+            if k == "PathExists":
+                return os.path.exists(v)
+            if not os.path.exists(v):
+                return None if k == "HasPermissions" else False      # (HasPermissions is documented for existing paths)
+            if k == "FileContains":
+                if os.path.isdir(v):
+                    return None         # (reading a directory: an error, not a verdict)
+                with open(v) as f:
+                    return f.read() == spec[1]
+            if k == "DirContains":
+                return os.path.isdir(v) and sorted(os.listdir(v)) == sorted(spec[1])
+            return oct(os.stat(v).st_mode)[-4:] == spec[1]
+        for op in case["ops"]:
+            if op[0] == "build":
+                built.append((op[1], mk(op[1])))
+            elif op[0] == "retarget":
+                os.unlink(j("link"))
+                os.symlink(j(op[1]), j("link"))
+            elif op[0] == "chdir":
+                os.chdir(j(op[1]))
+            elif op[0] == "write":
+                with open(j(op[1]), "w") as f:
+                    f.write(op[2])
+            elif op[0] == "chmod":
+                if os.path.exists(j(op[1])):
+                    os.chmod(j(op[1]), op[2])
+            elif op[0] == "touch":
+                with open(j(op[1]), "w") as f:
+                    f.write("")
+            elif op[0] == "remove":
+                if os.path.lexists(j(op[1])):
+                    os.unlink(j(op[1]))
+            elif op[0] == "match" and op[1] < len(built):
+                spec, m = built[op[1]]
+                w = want(spec, op[2])
+                if w is None:
+                    continue
+                v = op[2] if op[2] == "rel.txt" else j(op[2])
+                try:
+                    kept = m.match(v) is None
+                    fresh = mk(spec).match(v) is None
+                except Exception as e:  # noqa
+                    kept = fresh = "match raised %r" % (e,)
+                ctx.check(kept == w and fresh == w, "verdict==documented-predicate",
+                          lambda: {"matcher": spec, "value": op[2], "the matcher built earlier says": kept,
+                                   "one built now says": fresh, "the filesystem says": w, "case": case})
+        return any(op[0] == "match" for op in case["ops"])
+    finally:
+        os.chdir(cwd0)
+        shutil.rmtree(root, ignore_errors=True)
+
+
+SUBCHECKS = {"fs_later": x_fs_later, "expr": x_expr, "sequence": x_sequence, "exc_nontuple": x_exc_nontuple, "extension": x_extension}
 
 DOMS = ["int", "str", "bytes", "list", "lstr", "dict", "obj", "exc", "call", "warncall", "path"]
 
@@ -216,6 +311,29 @@ def accept(S):
 
 def run(ctx):
     rng = ctx.rng
+    n = 0
+    specs = [["SamePath", "link"], ["SamePath", "rel.txt"], ["SamePath", "f1"], ["SamePath", "A/../f2"],
+             ["FileContains", "one"], ["FileContains", "in B"], ["DirContains", ["rel.txt"]],
+             ["DirContains", ["new", "rel.txt"]], ["HasPermissions", "0644"], ["HasPermissions", "0600"], ["PathExists"]]
+    values = ["f1", "f2", "link", "rel.txt", "A/rel.txt", "B/rel.txt", "A", "B", "new", "A/new"]
+    for i in range(ctx.scale(400, 20000)):
+        ops = []
+        nb = 0
+        for _ in range(rng.randint(3, 12)):
+            r = rng.random()
+            if r < 0.3 or not nb:
+                ops.append(["build", rng.choice(specs[:4] if rng.random() < 0.5 else specs)])
+                nb += 1
+            elif r < 0.65:
+                ops.append(["match", rng.randrange(nb), rng.choice(values)])
+            else:
+                ops.append(rng.choice([["retarget", "f2"], ["retarget", "f1"], ["retarget", "A/rel.txt"], ["chdir", "B"],
+                                       ["chdir", "A"], ["chdir", "."], ["write", "f1", "two"], ["write", "f2", "one"],
+                                       ["chmod", "f1", 0o600], ["chmod", "f2", 0o644], ["touch", "A/new"], ["touch", "new"],
+                                       ["remove", "A/new"], ["remove", "f2"]]))
+        n += 1
+        ctx.execute("fs_later", {"ops": ops})
+    ctx.note_space("filesystem matchers kept across changes of the filesystem / working directory (random histories)", n, False)
     n = 0
     # every leaf x every pool value
     for dom in DOMS:
